@@ -168,6 +168,10 @@ def main(check, argv=None):
             if name.endswith(".json"):
                 os.unlink(os.path.join(rdir, name))
     shards = check.shards(tier)
+    only = os.environ.get("AKV_ONLY_SHARDS")
+    if only:
+        # debugging aid: run only the shards whose repr contains one of the '|'-separated fragments
+        shards = [s for s in shards if any(frag in repr(s) for frag in only.split("|"))]
     budget = args.budget
     if budget is None:
         budget = getattr(check, "budget_s", {}).get(tier)
